@@ -27,7 +27,8 @@ RULE = (
     "types, k=2 quick / 3 thorough); the 'sole reference site' matrix is part of it (skeleton pole + one or two reference-site axes, "
     "with shared or per-site distinct tags/users) and is measured: coverage.counters['sole:<site>'] counts cases in which some object "
     "is referenced from that site only. histories: every ordered pair (X, Y) of the 24 pole collections saved (and loaded) one after "
-    "the other in the same process. Non-trivial = document contains at least one cross reference. State = canonical JSON of the "
+    "the other in the same process. aliases: the maximal pole and its 1-deviation neighbours with, at every tag site, a second term that "
+    "shares the first term's name but not its label. Non-trivial = document contains at least one cross reference. State = canonical JSON of the "
     "collection + audio_dir flag."
 )
 ASSUMPTIONS = [
@@ -71,6 +72,8 @@ def blocks(tier):
             nchunks = max(1, min(64, n // 400))
             for i in range(nchunks):
                 out.append({"space": "graphs", "kind": kind, "pole": p, "k": k, "i": i, "of": nchunks})
+    for kind in G.KINDS:
+        out.append({"space": "aliases", "kind": kind})
     colls = [(kind, p) for kind in G.KINDS for p in G.POLES]
     for x in range(len(colls)):
         out.append({"space": "histories", "first": list(colls[x])})
@@ -86,6 +89,10 @@ def run_block(block, rec):
             for s in getattr(out, "_sole", ()):
                 rec.count("sole:" + s)
             rec.add(out)
+    elif block["space"] == "aliases":
+        # terms that share their name but not their label (two tags per site): the maximal pole and its 1-deviation neighbours
+        for j, p, delta in G.cases(block["kind"], 1, ["maximal"]):
+            rec.add(run_case({"space": "graphs", "kind": block["kind"], "pole": p, "delta": delta, "dev": j, "alias": 1}))
     else:
         for kind in G.KINDS:
             for p in G.POLES:
@@ -171,6 +178,8 @@ def run_case(case):
     if case["space"] == "graphs":
         kind = case["kind"]
         cfg = G.config(case["pole"], case["delta"])
+        if case.get("alias"):
+            cfg["_term_alias"] = 1
         adir = G.AUDIO_DIR if cfg["audio_dir"] else None
         x0 = G.build(kind, cfg)
         out.key = [kind, bool(adir), x0.model_dump_json()]
